@@ -20,6 +20,7 @@ type SpecEnv struct {
 	useVars  bool
 	pos      token.Pos
 	depth    int
+	resIndex int // which result of a pure call is meant (res1(x.M()))
 }
 
 func (env *SpecEnv) copy() *SpecEnv {
@@ -278,10 +279,19 @@ func (fc *FnCtx) specEval(env *SpecEnv, e SExpr) Val {
 		}
 		if len(e.Trig) > 0 {
 			var ps []string
+			okPat := true
 			for _, t := range e.Trig {
-				ps = append(ps, fc.specEval(n, t).T)
+				pt := fc.specEval(n, t).T
+				for _, bad := range []string{"(ite ", "(and ", "(or ", "(not ", "(= ", "(=> ", "(<= ", "(< ", "(>= ", "(> "} {
+					if strings.Contains(pt, bad) {
+						okPat = false
+					}
+				}
+				ps = append(ps, pt)
 			}
-			bt = "(! " + bt + " :pattern (" + strings.Join(ps, " ") + "))"
+			if okPat {
+				bt = "(! " + bt + " :pattern (" + strings.Join(ps, " ") + "))"
+			}
 		}
 		return Val{"(" + e.Kind + " (" + strings.Join(binds, " ") + ") " + bt + ")", boolT}
 	case *SLit:
@@ -444,6 +454,10 @@ func (fc *FnCtx) specSel(env *SpecEnv, e *SSel) Val {
 			}
 			sfail("no field %q in %s", e.Name, x.Ty)
 		}
+		if m, ok := obj.(*types.Func); ok {
+			// method value in a spec: the same uninterpreted function of the receiver as in code
+			return Val{fc.methodValueTerm(x, m), m.Type()}
+		}
 		if _, ok := obj.(*types.Var); !ok {
 			sfail("%q is not a field of %s", e.Name, x.Ty)
 		}
@@ -568,6 +582,34 @@ func (fc *FnCtx) specCall(env *SpecEnv, e *SCall) Val {
 				sfail("unknown type %s in zero", tn)
 			}
 			return Val{smt.zero(t), t}
+		case "call0", "call1", "call2":
+			f := args(0)
+			sig, ok := f.Ty.Underlying().(*types.Signature)
+			if !ok {
+				sfail("%s: first argument is not a function value (%s)", id.Name, f.Ty)
+			}
+			idx := int(id.Name[4] - '0')
+			var ats []string
+			for i := 1; i < len(e.Args); i++ {
+				ats = append(ats, args(i).T)
+			}
+			t := "(" + fc.appFn(sig, idx) + " " + f.T + " " + strings.Join(ats, " ") + ")"
+			if len(ats) == 0 {
+				t = "(" + fc.appFn(sig, idx) + " " + f.T + ")"
+			}
+			return Val{t, sig.Results().At(idx).Type()}
+		case "res0", "res1", "res2":
+			inner, ok := e.Args[0].(*SCall)
+			if !ok {
+				sfail("%s needs a call argument", id.Name)
+			}
+			n := *env
+			n.resIndex = int(id.Name[3] - '0')
+			return fc.specCall(&n, inner)
+		case "hasPrefix", "hasSuffix", "contains":
+			n := "str_" + strings.ToLower(id.Name)
+			smt.declare(n, fmt.Sprintf("(declare-fun %s (Str Str) Bool)", n))
+			return Val{"(" + n + " " + args(0).T + " " + args(1).T + ")", boolT}
 		case "mapEq":
 			// mapEq(a, b): same domain and values
 			a, b := args(0), args(1)
@@ -589,23 +631,38 @@ func (fc *FnCtx) specCall(env *SpecEnv, e *SCall) Val {
 	if sl, ok := e.Fun.(*SSel); ok {
 		if id, ok := sl.X.(*SIdent); ok {
 			if _, bound := env.scope[id.Name]; !bound {
+				// spec function of another package: pkg.name(args)
+				for _, q := range fc.eng.importedPkgs(env.pkg, id.Name) {
+					if q.cf == nil {
+						continue
+					}
+					if sf, ok := q.cf.SpecFns[sl.Name]; ok {
+						var as []Val
+						for i := range e.Args {
+							as = append(as, fc.specEval(env, e.Args[i]))
+						}
+						return fc.callSpecFn(env, sf, nil, as)
+					}
+				}
 				if o := fc.eng.lookupQualified(env.pkg, id.Name, sl.Name); o != nil {
 					if f, ok := o.(*types.Func); ok {
 						if ct := fc.eng.contractFor(f, env.pkg); ct != nil && ct.Pure {
 							sig := f.Type().(*types.Signature)
-							var sorts, ats []string
+							var as []Val
 							for i := range e.Args {
 								a := fc.specEval(env, e.Args[i])
 								if i < sig.Params().Len() {
-									a.Ty = sig.Params().At(i).Type()
+									if _, isTP := types.Unalias(sig.Params().At(i).Type()).(*types.TypeParam); !isTP {
+										a.Ty = sig.Params().At(i).Type()
+									}
 								}
-								sorts = append(sorts, fc.smt.sortOf(a.Ty))
-								ats = append(ats, a.T)
+								as = append(as, a)
 							}
-							rt := sig.Results().At(0).Type()
-							name := fmt.Sprintf("pure_%s_%d", sanitize(ct.Key), 0)
-							fc.smt.declare(name, fmt.Sprintf("(declare-fun %s (%s) %s)", name, strings.Join(sorts, " "), fc.smt.sortOf(rt)))
-							return Val{"(" + name + " " + strings.Join(ats, " ") + ")", rt}
+							ri := env.resIndex
+							if ri >= sig.Results().Len() {
+								sfail("%s has only %d results", sl.Name, sig.Results().Len())
+							}
+							return fc.pureApp(ct, nil, as, sig.Results().At(ri).Type(), ri)
 						}
 						sfail("spec call of %s.%s: not an `extern pure` function", id.Name, sl.Name)
 					}
@@ -629,6 +686,22 @@ func (fc *FnCtx) specCall(env *SpecEnv, e *SCall) Val {
 			}
 		}
 		if sf == nil {
+			if obj, _, _ := types.LookupFieldOrMethod(recv.Ty, true, nil, sl.Name); obj != nil {
+				if m, ok := obj.(*types.Func); ok {
+					if ct := fc.eng.contractFor(m, env.pkg); ct != nil && ct.Pure {
+						sig := m.Type().(*types.Signature)
+						var as []Val
+						for i := range e.Args {
+							as = append(as, fc.specEval(env, e.Args[i]))
+						}
+						ri := env.resIndex
+						if ri >= sig.Results().Len() {
+							sfail("%s has only %d results", sl.Name, sig.Results().Len())
+						}
+						return fc.pureApp(ct, &recv, as, sig.Results().At(ri).Type(), ri)
+					}
+				}
+			}
 			sfail("unknown spec method %s", key)
 		}
 		var as []Val
@@ -858,4 +931,40 @@ func (eng *Engine) resolveGhostType(g *GhostField) types.Type {
 		return intT
 	}
 	return t
+}
+
+// importedPkg: the loaded package imported under the given name by p
+func (eng *Engine) importedPkg(p *Pkg, name string) *Pkg {
+	if p == nil {
+		return nil
+	}
+	for _, imp := range p.Types.Imports() {
+		if imp.Name() == name {
+			return eng.pkgs[imp.Path()]
+		}
+	}
+	if path, ok := p.importAlias[name]; ok {
+		return eng.pkgs[path]
+	}
+	return nil
+}
+
+func (eng *Engine) importedPkgs(p *Pkg, name string) []*Pkg {
+	var out []*Pkg
+	if p == nil {
+		return nil
+	}
+	if path, ok := p.importAlias[name]; ok {
+		if q := eng.pkgs[path]; q != nil {
+			out = append(out, q)
+		}
+	}
+	for _, imp := range p.Types.Imports() {
+		if imp.Name() == name {
+			if q := eng.pkgs[imp.Path()]; q != nil {
+				out = append(out, q)
+			}
+		}
+	}
+	return out
 }
